@@ -34,6 +34,18 @@ Theorem report_honest : forall t0 evs,
 Proof. exact report_honest_holds. Qed.
 Print Assumptions report_honest.
 
+(* "The completion of an action is reported with that action's own response":
+   if the executor's update channel was closed before this Run built its request
+   (in an earlier step, or while the Run slept in its select) and the select
+   was ended by an update and not by the timer, the request reports that
+   executor's Completed (with report_honest: its own response); and a client
+   that held no execution slot when the previous Run returned never reports a
+   non-completed executing state. *)
+Theorem completion_reported : forall t0 evs,
+  trace_ok chk_completion (trace (init t0) evs) = true.
+Proof. exact completion_reported_holds. Qed.
+Print Assumptions completion_reported.
+
 (* A non-OK completion is reported with PreferBeingIdle, and PreferBeingIdle
    stays set on every later request until readiness was re-checked
    successfully (or the scheduler forced a new action onto the worker); an
@@ -64,7 +76,7 @@ Theorem terminate_only_when_safe : forall t0 evs,
 Proof. exact terminate_holds. Qed.
 Print Assumptions terminate_only_when_safe.
 
-(* All five at once: the predicate Corr.v evaluates on implementation traces. *)
+(* All six at once: the predicate Corr.v evaluates on implementation traces. *)
 Theorem client_trace_ok : forall t0 evs,
   trace_ok chk_all (trace (init t0) evs) = true.
 Proof. exact client_trace_ok_holds. Qed.
@@ -307,4 +319,59 @@ Example late_cancel_on_cancelled_context_rejected :
   chk_trace chk_all mon_init
     [ bad_item (rn_late 50 RpcErr) [OReady; OSync RIdle true false; ORet false ESync] ]
   = "synchronize-with-cancelled-context"%string.
+Proof. vm_compute. reflexivity. Qed.
+
+(* Completion.  A progress update, the end of Execute (Completed is sent) and
+   the close of the channel all happen between two Runs; the next Run's select
+   is ended by the update, the client drains the channel to the close and
+   reports the Completed with the executor's own response, and gives up its
+   slot. *)
+Definition burst : list event :=
+  [ rn false 0 (Reply (Some 10) (DExec 1));
+    EExec (XUpdate 1); EExec (XFinish true 7); EExec XClose;
+    rn false 5 (Reply (Some 20) DNone) ].
+
+Example demo_burst :
+  map (fun it => (i_outs it, o_exec (i_obs it))) (trace (init 0) burst) =
+  [ ([OReady; OSync RIdle false true; OStart 0 1 false; ORet false ENone], true);
+    ([OX (XUpdate 1) XSent], true); ([OExit 0; OX (XFinish true 7) XSent], true); ([OX XClose XClosed], true);
+    ([OTimer 5 false; OSync (RExec 1 (StDone true 7)) false true; ORet true ENone], false) ]%N.
+Proof. vm_compute. reflexivity. Qed.
+
+(* What "keep only the latest pending update and forget it at end-of-stream"
+   produces on that history: the first update is reported, the Completed is
+   dropped.  Rejected; and so is every later request that still reports the
+   action as executing although the client gave up its slot. *)
+Definition burst_items (last_outs : list out) : list item :=
+  [ mkItem (rn false 0 (Reply (Some 10) (DExec 1))) [OReady; OSync RIdle false true; OStart 0 1 false; ORet false ENone]
+           (mkObs (Some 60010) 10 true false);
+    mkItem (EExec (XUpdate 1)) [OX (XUpdate 1) XSent] (mkObs (Some 60010) 10 true false);
+    mkItem (EExec (XFinish true 7)) [OExit 0; OX (XFinish true 7) XSent] (mkObs (Some 60010) 10 true false);
+    mkItem (EExec XClose) [OX XClose XClosed] (mkObs (Some 60010) 10 true false);
+    mkItem (rn false 5 (Reply (Some 20) DNone)) last_outs (mkObs (Some 60020) 20 false false) ].
+
+Example burst_accepted :
+  chk_trace chk_all mon_init
+    (burst_items [OTimer 5 false; OSync (RExec 1 (StDone true 7)) false true; ORet true ENone]) = ""%string.
+Proof. vm_compute. reflexivity. Qed.
+
+Example completion_dropped_rejected :
+  chk_trace chk_all mon_init
+    (burst_items [OTimer 5 false; OSync (RExec 1 (StUpd 1)) false true; ORet false ENone])
+  = "completion-not-reported"%string.
+Proof. vm_compute. reflexivity. Qed.
+
+(* ... but re-sending the last state when the TIMER ended the select is fine
+   (Go's select may pick the timer although updates are ready). *)
+Example timer_resend_accepted :
+  chk_trace chk_all mon_init
+    (burst_items [OTimer 5 true; OSync (RExec 1 StStarted) false true; ORet false ENone]) = ""%string.
+Proof. vm_compute. reflexivity. Qed.
+
+Example executing_without_slot_rejected :
+  chk_trace chk_all mon_init
+    (burst_items [OTimer 5 true; OSync (RExec 1 StStarted) false true; ORet false ENone]
+     ++ [ mkItem (rn false 20 (Reply (Some 30) DNone)) [OSync (RExec 1 (StUpd 1)) false true; ORet false ENone]
+                 (mkObs (Some 60030) 30 false false) ])
+  = "reports-executing-after-executor-closed"%string.
 Proof. vm_compute. reflexivity. Qed.
